@@ -264,7 +264,9 @@ def match_known(prop, obl_id, witness_class, findings=None):
     for kf in findings if findings is not None else load_known_findings():
         if kf.get("status", "open") != "open":
             continue  # "fixed" entries suppress nothing
-        if kf["property"] == prop and kf["obligation"] == obl_id and kf.get("witness_class") == witness_class:
+        if kf["property"] != prop or kf.get("witness_class") != witness_class:
+            continue
+        if kf.get("obligation") == obl_id or (kf.get("obligation_prefix") and obl_id.startswith(kf["obligation_prefix"])):
             return kf
     return None
 
